@@ -170,6 +170,9 @@ impl FileTransfer {
     }
 }
 
+/// max. size in bytes to pre-allocate for the data of a file transfer based on the announced size
+const MAX_FILE_DATA_PREALLOC: u64 = 1024 * 1024;
+
 #[derive(Debug)]
 pub struct FileTransferPlugin {
     name: String,
@@ -324,8 +327,13 @@ impl Plugin for FileTransferPlugin {
                                 next_package: 1,
                                 recvd_packages: 0,
                                 recvd_payload: 0,
+                                // dont trust the announced size for the allocation (might be corrupt or overflow).
+                                // file_data grows if needed. The capacity needs to be >0 if keep_data.
                                 file_data: Vec::with_capacity(if keep_data {
-                                    (nr_packages * buffer_size) as usize
+                                    std::cmp::min(
+                                        nr_packages.saturating_mul(buffer_size),
+                                        MAX_FILE_DATA_PREALLOC,
+                                    ) as usize
                                 } else {
                                     0
                                 }),
